@@ -11,7 +11,14 @@ import (
 // before tryUnblock; after the event time-out e2 arrives, flushes e1 and is passed (batching, slow
 // output: both uncommitted) or discarded (synchronous output: stream detaches); the heartbeat is
 // released; later e3 arrives.  kind 0: batching output, kind 1: synchronous output + discard.
-func StaleUnblock(kind int, procs int) hx.Sx {
+func StaleUnblock(kind int, procs int) hx.Sx { return StaleUnblockT(kind, procs, 30) }
+
+// StaleUnblockT is StaleUnblock with the given event time-out.  With 450 ms (> the 200 ms heartbeat period) the first
+// heartbeat that sees the blocked stream is NOT yet entitled to time it out; it is held before tryUnblock until the
+// time-out has passed, e2 has come and gone, and then runs on a stream that was unblocked (and possibly blocked again with
+// a fresh blockTime) in the meantime: a tryUnblock that trusts the stale copy sends a time-out to an idle or a freshly
+// blocked action (monitor 9 in C13/C15; stream LTS guard of STimeout here).
+func StaleUnblockT(kind int, procs int, evTimeout int) hx.Sx {
 	ev := func(off int, ops string) hx.Sx {
 		return hx.L(hx.I(0), hx.I(1), hx.I(off), hx.S(fmt.Sprintf(`{"stream":"a","ops":"%s","m":"111"}`, ops)))
 	}
@@ -24,8 +31,8 @@ func StaleUnblock(kind int, procs int) hx.Sx {
 	if kind == 1 {
 		nAct, first = 2, "hp"
 	}
-	cfg := hx.L(hx.I(procs), hx.I(0), hx.I(8), hx.I(30), hx.I(nAct), hx.I(outKind), hx.I(1), hx.I(4), hx.I(15), hx.I(0), hx.I(0), hx.I(0), hx.I(1))
-	feeder := hx.L(ev(10, first), hx.L(hx.I(2)), hx.L(hx.I(1), hx.I(45)), ev(20, second), hx.L(hx.I(1), hx.I(25)), hx.L(hx.I(3)),
+	cfg := hx.L(hx.I(procs), hx.I(0), hx.I(8), hx.I(evTimeout), hx.I(nAct), hx.I(outKind), hx.I(1), hx.I(4), hx.I(15), hx.I(0), hx.I(0), hx.I(0), hx.I(1))
+	feeder := hx.L(ev(10, first), hx.L(hx.I(2)), hx.L(hx.I(1), hx.I(evTimeout*3/2)), ev(20, second), hx.L(hx.I(1), hx.I(25)), hx.L(hx.I(3)),
 		hx.L(hx.I(1), hx.I(30)), ev(30, "pp"[:nAct]))
 	plan := hx.L(hx.L(hx.I(400), hx.I(0)))
 	return hx.L(cfg, hx.L(feeder), plan)
@@ -80,4 +87,27 @@ func DeadQOvertake(procs int, slow0, slow1 int) hx.Sx {
 	ops := []hx.Sx{ev(10), hx.L(hx.I(1), hx.I(5)), ev(20), hx.L(hx.I(1), hx.I(5)), ev(30), hx.L(hx.I(1), hx.I(slow0+40)), ev(40)}
 	plan := hx.L(hx.L(hx.I(slow0), hx.I(0)), hx.L(hx.I(slow1), hx.I(0)), hx.L(hx.I(0), hx.I(2)), hx.L(hx.I(0), hx.I(0)))
 	return hx.L(cfg, hx.L(hx.L(ops...)), plan)
+}
+
+// ExpandProcs: growProcs / expandProcs (pipeline.go) double the processors when every processor is busy.  Both processors
+// of a 2-processor pipeline are parked in blockGet behind a held event (event time-out evTimeoutMs); 350 ms later probe
+// events arrive on `probes` new streams.  With the expansion they are served by the new processors at once; without it (or
+// with new processors that never start / get ids that collide) they wait for the time-outs of the held streams, i.e. longer
+// than boundMs: the probe label (114) breaks monitor 1.  The processor count at quiescence is reported by label 115.
+// (The harnesses use 2500 / 1600 ms: the expansion normally comes within 100..300 ms of the second hold, so that a loaded
+// machine has 1.3 s of slack, while without expansion the probes wait >= 2150 ms.)
+func ExpandProcs(evTimeoutMs, boundMs, probes int, batching bool) hx.Sx {
+	ev := func(src, off int, ops string) hx.Sx {
+		return hx.L(hx.I(0), hx.I(src), hx.I(off), hx.S(fmt.Sprintf(`{"stream":"a","ops":"%s","m":"11"}`, ops)))
+	}
+	outKind := 0
+	if batching {
+		outKind = 1
+	}
+	cfg := hx.L(hx.I(2), hx.I(0), hx.I(16), hx.I(evTimeoutMs), hx.I(1), hx.I(outKind), hx.I(1), hx.I(1), hx.I(10), hx.I(0), hx.I(0), hx.I(0))
+	ops := []hx.Sx{ev(1, 10, "h"), ev(2, 10, "h"), hx.L(hx.I(1), hx.I(350))}
+	for i := 0; i < probes; i++ {
+		ops = append(ops, hx.L(hx.I(4), hx.I(3+i), hx.I(10), hx.S(`{"stream":"a","ops":"p","m":"11"}`), hx.I(boundMs)))
+	}
+	return hx.L(cfg, hx.L(hx.L(ops...)), hx.L())
 }
